@@ -33,9 +33,9 @@ func newDiffState(oldMast *Mast, newMast *Mast) *diffState {
 	dc.alreadyNotifiedNewLink = map[uint8]interface{}{}
 	if oldMast != nil {
 		dc.oldMast = oldMast
-		dc.oldStack = newIterItemStack(iterItem{considerLink: oldMast.root})
+		dc.oldStack.pushLink(oldMast.root)
 	}
-	dc.newStack = newIterItemStack(iterItem{considerLink: newMast.root})
+	dc.newStack.pushLink(newMast.root)
 	return &dc
 }
 
